@@ -16,10 +16,13 @@ EXPLANATION = (
 
 
 def run(e, R, tier):
-    T.r_timeout_exit(e, R)
-    S.r_exit_handshake(e, R)
-    T.r_respawn_guard(e, R)
-    T.r_spawn_locked(e, R)
-    L.r_nulled(e, R)
-    L.r_mgr_self(e, R)
+    R.run_rules(e, [
+        T.r_timeout_exit,
+        S.r_exit_handshake,
+        T.r_respawn_guard,
+        T.r_spawn_locked,
+        T.r_spawn_site,
+        L.r_nulled,
+        L.r_mgr_self,
+    ])
     R.trust("queue get(timeout) raises Empty on timeout; Lock.acquire(block=False) never blocks")
